@@ -74,6 +74,14 @@ impl Check for C14 {
 // Packetizer
 // ---------------------------------------------------------------------------------------------
 
+/// Under an interpreter (mode `miri`) frames stay small: its cost is per byte.
+fn frame_size_for(r: &mut Rng, ctx: &Ctx) -> usize {
+    if ctx.mode == "miri" {
+        return if r.chance(1, 12) { r.range(65_530, 65_560) } else { r.range(5, 300) };
+    }
+    frame_size(r, ctx.tier)
+}
+
 fn frame_size(r: &mut Rng, tier: Tier) -> usize {
     match r.below(100) {
         0..=59 => r.range(5, 120),
@@ -105,7 +113,7 @@ fn packetizer_case(ctx: &Ctx, idx: u64, r: &mut Rng, out: &mut Outcome) {
     out.eval();
     let nframes = r.range(1, 8);
     let frames: Vec<Vec<u8>> = (0..nframes).map(|_| {
-        let n = frame_size(r, ctx.tier);
+        let n = frame_size_for(r, ctx);
         make_frame(r, n)
     }).collect();
     let sizes: Vec<usize> = frames.iter().map(|f| f.len()).collect();
